@@ -18,7 +18,7 @@ LOGICAL = [
     "assertion failed", "possible arithmetic underflow/overflow", "decreases not satisfied",
     "possible division by zero", "cannot show invariant holds", "loop invariant not satisfied",
     "unreachable", "recommendation not met", "possible bit shift underflow/overflow",
-    "could not prove termination", "failed to satisfy", "assertion violation", "cannot prove",
+    "could not prove termination", "fails to satisfy", "failed to satisfy", "assertion violation", "cannot prove",
     "index out of bounds", "possible", "may panic", "call to panic", "panic",
 ]
 
@@ -47,6 +47,70 @@ def verus_cmd(path, fs, externs, rlimit, seed, extra=()):
     return cmd
 
 def run_unit(unit, fs, seed=0, rlimit=None, keep=True, tag=""):
+    """run_unit_once, plus: when the verified text calls a function / method that the unit does not know, and /repo's file of the
+    caller defines it with a body that is one pure expression, the helper is brought into the unit with the contract `ensures r == <its
+    body>` (the strongest one, read off its text) and the run is repeated. A change that moves a predicate into a helper is then
+    verified through the helper instead of ending undecided. Helpers with statements, loops or calls stay outside (undecided as before)."""
+    import copy
+    added = []
+    res = None
+    for _round in range(4):
+        res = run_unit_once(unit, fs, seed, rlimit, keep, tag)
+        if res["status"] != "undecided" or not res["compile_errors"]:
+            break
+        new = _missing_pure_helpers(unit, res)
+        seen_h, uniq = {(a.file, a.qual) for a in added}, []
+        for h in new:
+            if (h.file, h.qual) not in seen_h:
+                seen_h.add((h.file, h.qual)); uniq.append(h)
+        new = uniq
+        if not new:
+            break
+        unit = copy.copy(unit)
+        unit.items = list(unit.items) + new
+        added += new
+    if added:
+        res["auto_helpers"] = [f"{h.file}::{h.qual}: {' '.join(h.contract.split())[:200]}" for h in added]
+    return res
+
+def _missing_pure_helpers(unit, res):
+    from gen import Fn, source
+    out = []
+    for e in res["compile_errors"]:
+        msg = e.get("message") or ""
+        m = re.search(r"no method named `(\w+)` found for (?:enum|struct|reference|type) `&?(?:[\w:]*::)?(\w+)", msg)
+        ty = None
+        if m:
+            name, ty = m.group(1), m.group(2)
+        else:
+            m = re.search(r"cannot find function `(\w+)` in this scope", msg)
+            if not m: continue
+            name = m.group(1)
+        caller = next((it for it in unit.items if isinstance(it, Fn) and it.mode == "verify" and it.name == (e.get("fn") or "").split("::")[-1]), None)
+        if caller is None: continue
+        try:
+            src = source(caller.file)
+            d = None
+            for impl in ([ty] if ty else []) + [None]:
+                try:
+                    d = src.find_fn(name, impl, None, 0); impl_of = impl; break
+                except Exception:
+                    continue
+            if d is None or d["body_open"] is None: continue
+            body = src.text[d["body_open"] + 1:d["end"] - 1].strip()
+        except Exception:
+            continue
+        # one pure expression: no statements, no bindings, no loops, no macros other than matches!
+        stripped = re.sub(r"//[^\n]*", "", body)
+        if ";" in stripped or re.search(r"\b(let|for|while|loop|return|unsafe)\b", stripped): continue
+        if re.search(r"\b(?!matches)\w+!\s*[\(\[{]", stripped): continue
+        sig = src.text[d["kw"]:d["body_open"]]
+        if "->" not in sig: continue
+        out.append(Fn(caller.file, name, impl_of=impl_of, contract=f"ensures r == ({stripped}),",
+                      note="auto-included helper: its body is one pure expression, which is its contract"))
+    return out
+
+def run_unit_once(unit, fs, seed=0, rlimit=None, keep=True, tag=""):
     """returns result dict: status in {ok, failed, undecided}, failures[list], functions{}, time…"""
     t0 = time.time()
     text, meta = generate(unit)
@@ -141,7 +205,7 @@ def run_unit(unit, fs, seed=0, rlimit=None, keep=True, tag=""):
         low = msg.lower()
         if "rlimit" in low or "resource limit" in low or "timed out" in low or "timeout" in low:
             res["undecided"].append(entry); continue
-        if any(low.startswith(x) or x in low for x in LOGICAL[:13]) and d.get("code") is None:
+        if any(low.startswith(x) or x in low for x in LOGICAL[:14]) and d.get("code") is None:
             res["failures"].append(entry); continue
         res["compile_errors"].append(entry)
     if j:
